@@ -57,6 +57,12 @@ def _configs():
                             model_parameters={"lambda_": lam} if lam else {},
                         )
                         out.append((cfg, n))
+    # fixed effects with a level that a single reporting unit carries: in some fits that unit is a calibration unit and the
+    # level's dummy column is all zero on the training rows (the design matrix is then singular - expected, not fatal)
+    for pm, n in (("nonparametric", 14), ("gaussian", 16)):
+        cfg = E.make_cfg(pi_method=pm, estimands=["turnout"], alphas=[0.5, 0.7], features=[E.FEATURE], fixed_effects={"county_classification": ["all"]}, aggregates=["postal_code", "county_fips", "unit"], model_parameters={"lambda_": 0.5})
+        cfg["single_unit_level"] = True
+        out.append((cfg, n))
     return out
 
 
@@ -153,6 +159,9 @@ def evaluate(case):
     cov = Counter()
     units = S.build_units(case)
     cfg = case["cfg"]
+    if cfg.get("single_unit_level"):
+        [u for u in units if u["role"] == "bg"][3]["cls"] = "s"
+        cov["runs_with_single_unit_fixed_effect_level"] += 1
     pm = cfg["pi_method"]
     V = []
 
@@ -250,4 +259,4 @@ def evaluate(case):
     }
 
 
-REQUIRED_COUNTERS = {"faults_delivered": 100, "fault_on_median": 10, "fault_on_lower": 10, "fault_on_upper": 10, "runs_with_log_level_INFO": 20, "runs_with_log_level_DEBUG": 20, "runs_under_host_warning_filters": 40}
+REQUIRED_COUNTERS = {"faults_delivered": 100, "fault_on_median": 10, "fault_on_lower": 10, "fault_on_upper": 10, "runs_with_log_level_INFO": 20, "runs_with_log_level_DEBUG": 20, "runs_under_host_warning_filters": 40, "runs_with_single_unit_fixed_effect_level": 10}
